@@ -47,16 +47,34 @@ async def settle():
 
 
 async def run_seq(ports, acts, via_context=False):
-    got = []; b = SwitcherBridge(lambda d: got.append(d), list(ports)); foreign = {}
+    got = []; boom = [0]
+    def cb(d):
+        got.append(d)
+        if boom[0]: boom[0] -= 1; raise LookupError("user callback failure")
+    b = SwitcherBridge(cb, list(ports)); foreign = {}
     others = [SwitcherBridge(lambda d: None, list(ports)), SwitcherBridge(lambda d: None, list(ports))]    # same ports, never started
     tx = socket.socket(socket.AF_INET, socket.SOCK_DGRAM); out = ""; late = 0; stopped_at = None; odd = []; leaves = 0
+    loop_ = asyncio.get_running_loop(); oldh = loop_.get_exception_handler(); loop_.set_exception_handler(lambda l, ctx: None)      # failures inside the handlers are C07's subject
     try:
         for k, i in acts:
             if k == 5:
                 # fire and forget: a broadcast is sent and only i // 8 loop cycles pass before the next action; whether it is delivered
                 # is not observed (and not modelled) - what matters is that nothing is delivered after a later stop() has returned
-                tx.sendto(valid_datagram(), ("127.0.0.1", ports[i % 8 % len(ports)]))
-                for _ in range(i // 8): await asyncio.sleep(0)
+                # from 64 on: a datagram the parser chokes on (a name that is not text, an unknown model, junk with the magic) or, 256 and up,
+                # a valid one on which the user's callback raises - sent, given time to arrive, not observed: what it must not do is change what the bridge holds
+                v = i // 64; d = valid_datagram()
+                if v in (1, 2, 3):
+                    x = bytearray(d)
+                    if v == 1: x[42:74] = b"\xff" * 32
+                    elif v == 2: x[74:76] = b"\xee\xee"
+                    else: x = bytearray(b"\xfe\xf0" + bytes(163))
+                    d = bytes(x)
+                if v >= 4: boom[0] = 1
+                tx.sendto(d, ("127.0.0.1", ports[i % 8 % len(ports)]))
+                for _ in range((i % 64) // 8): await asyncio.sleep(0)
+                if v:
+                    for _ in range(5): await asyncio.sleep(0.001)
+                    boom[0] = 0
                 continue
             if stopped_at is not None and len(got) > stopped_at: late += len(got) - stopped_at
             stopped_at = None
@@ -123,7 +141,7 @@ async def run_seq(ports, acts, via_context=False):
         except Exception: pass
         await settle()
         for s in foreign.values(): s.close()
-        tx.close()
+        tx.close(); loop_.set_exception_handler(oldh)
         for t in list(b._transports.values()):       # release anything a broken start left behind
             if t and not t.is_closing(): t.close()
         await settle()
@@ -163,7 +181,10 @@ def run_sequences(out, stream, n_ports, seqs, via_context=False):
             t = await run_seq(ports, s, via_context); res.append(t)
             if "T|" in t: STUCK[0] += 1
         return res
-    io = asyncio.run(go())
+    import warnings
+    with warnings.catch_warnings():
+        warnings.simplefilter("ignore", UserWarning)          # the 'unknown device' warning of the troublesome datagrams is C06's subject
+        io = asyncio.run(go())
     if None in io:
         out.notes.append("%d sequences of stream %s were not run after three had ended in a start() or stop() that never returned" % (io.count(None), stream))
         keep = [j for j, t in enumerate(io) if t is not None]; seqs = [seqs[j] for j in keep]; io = [io[j] for j in keep]
@@ -238,6 +259,28 @@ async def default_ports():
     return res
 
 
+LISTED = [[20002], [20002, 20003], [10002], [10003, 20003], [20003], [10002, 20002]]
+async def listed_subsets():
+    """a bridge configured with SOME of the documented ports listens on those and on no other of them, and leaves none behind"""
+    res = []
+    for sub in LISTED:
+        b = SwitcherBridge(lambda d: None, list(sub)); t = ""
+        try:
+            await asyncio.wait_for(b.start(), PATIENCE); await settle()
+            t = "running=%s held=%s" % (b.is_running, "".join("-" if can_bind(p) else "B" for p in world.WELL_KNOWN_PORTS))
+            await asyncio.wait_for(b.stop(), PATIENCE); await settle()
+            t += " then running=%s held=%s" % (b.is_running, "".join("-" if can_bind(p) else "B" for p in world.WELL_KNOWN_PORTS))
+            await asyncio.wait_for(b.start(), PATIENCE); await settle(); t += " again=%s" % b.is_running
+            await asyncio.wait_for(b.stop(), PATIENCE); await settle()
+        except Exception as e: t += " raised " + type(e).__name__
+        finally:
+            for tr_ in list(getattr(b, "_transports", {}).values()):
+                if tr_ and not tr_.is_closing(): tr_.close()
+            await settle()
+        res.append(t)
+    return res
+
+
 async def bad_port_list():
     """a configured port no socket can take (a typo such as 200003): start raises something, and nothing is left listening"""
     res = []
@@ -273,6 +316,11 @@ def run(tier, rnd, out):
     seqs6 = [[(0, 0), o, (4, 0)] for o in ob] + [[o, (0, 0), (4, 1), o, (4, 0), (1, 0)] for o in ob] + [[(0, 0), (1, 0), o, (0, 0), o, (4, 0), (4, 1)] for o in ob]
     seqs6 += [[rnd.choice(alphabet + ob + ob) for _ in range(rnd.randrange(3, 9))] for _ in range(60 if tier == "quick" else 1500)]
     run_sequences(out, "with-other-bridge-objects-on-the-same-ports", 2, seqs6)
+    # datagrams the parser chokes on, and valid ones on which the user's callback raises, while the bridge runs: it goes on holding its ports
+    tr = [(5, 64 * v + p) for v in (1, 2, 3, 4) for p in (0, 1)]
+    seqs7 = [[(0, 0), t_, (4, 0), (4, 1), (1, 0), (4, 0)] for t_ in tr] + [[(0, 0), t_, u_, (4, 1), (1, 0), (0, 0), (4, 0)] for t_ in tr[::2] for u_ in tr[1::2]]
+    seqs7 += [[rnd.choice(alphabet + tr) for _ in range(rnd.randrange(3, 9))] for _ in range(40 if tier == "quick" else 1000)]
+    run_sequences(out, "troublesome-datagrams-and-a-raising-callback-while-running", 2, seqs7)
     seqs8 = [[(8, 0), (1, 0)], [(8, 0), (1, 0), (4, 0), (4, 1)], [(8, 0), (1, 0), (0, 0), (4, 0), (4, 1), (1, 0)], [(0, 0), (1, 0), (8, 0), (1, 0), (0, 0), (4, 1)],
              [(2, 1), (8, 0), (1, 0), (3, 1), (0, 0), (4, 1)]]
     run_sequences(out, "start-cancelled-then-stop", 2, seqs8)
@@ -287,6 +335,10 @@ def run(tier, rnd, out):
             got = asyncio.run(default_ports())
             lib.differential(out, "a-bridge-constructed-without-a-port-list", [{"step": "after start"}, {"step": "after stop"}][:len(got)], got, None,
                              ["running=True held=BBBB", "running=False held=----"][:len(got)], lambda c: "SwitcherBridge(callback) with the default ports, " + c["step"])
+            got = asyncio.run(listed_subsets())
+            lib.differential(out, "a-bridge-configured-with-some-of-the-documented-ports", [{"ports": sub} for sub in LISTED], got, None,
+                             ["running=True held=%s then running=False held=---- again=True" % "".join("B" if p in sub else "-" for p in world.WELL_KNOWN_PORTS) for sub in LISTED],
+                             lambda c: "SwitcherBridge(callback, %s): start, stop, start, stop" % c["ports"])
         finally: world.release_well_known_ports()
     else: out.notes.append("the library's default ports were not available on this machine for a minute: stream a-bridge-constructed-without-a-port-list not run")
     got = asyncio.run(bad_port_list())
